@@ -29,6 +29,7 @@ import (
 	"sync"
 	"syscall"
 	"time"
+	"unsafe"
 
 	"github.com/honeytrap/honeytrap/event"
 	"github.com/honeytrap/honeytrap/listener/canary"
@@ -68,6 +69,9 @@ type report struct {
 	N      int                    `json:"n,omitempty"`
 	Panics []BatchPanic           `json:"panics,omitempty"`
 	States int                    `json:"states,omitempty"`
+	OK     bool                   `json:"ok,omitempty"`
+	ISS    uint32                 `json:"iss,omitempty"`
+	State  string                 `json:"state,omitempty"`
 }
 
 type BatchPanic struct {
@@ -246,7 +250,7 @@ func childMain() int {
 				}()
 				k.c.InjectFrame(payload)
 			}()
-			if cmd == 'j' && !quiesce(5*time.Second) {
+			if cmd == 'j' && !quiesce(5*time.Second, false) {
 				r.Err = "goroutines of the listener did not come to rest within 5s"
 			}
 			for _, f := range k.c.DrainTxQuiesced() {
@@ -283,6 +287,60 @@ func childMain() int {
 				r.N++
 			}
 			w.send(r)
+		case 'b': // burst: inject all frames back to back (no drain in between), then barrier, then drain
+			r := report{T: "burst", ID: id}
+			p := payload
+			for len(p) >= 2 {
+				l := int(binary.BigEndian.Uint16(p[0:2]))
+				if 2+l > len(p) {
+					break
+				}
+				frame := p[2 : 2+l]
+				p = p[2+l:]
+				func() {
+					defer func() {
+						if e := recover(); e != nil {
+							r.Panics = append(r.Panics, BatchPanic{Index: r.N, Msg: fmt.Sprint(e), Where: where(debug.Stack())})
+						}
+					}()
+					k.c.InjectFrame(frame)
+				}()
+				r.N++
+			}
+			if !quiesce(5*time.Second, false) {
+				r.Err = "goroutines of the listener did not come to rest within 5s"
+			}
+			for _, f := range k.c.DrainTxQuiesced() {
+				r.Tx = append(r.Tx, hex.EncodeToString(f))
+			}
+			w.send(r)
+		case 'q': // barrier for a canary behind the real loop: socket drained, everybody parked
+			r := report{T: "rest", ID: id}
+			deadline := time.Now().Add(10 * time.Second)
+			calm := 0
+			for calm < 2 {
+				if pending(k.peers) == 0 && quiesce(0, true) {
+					calm++
+				} else {
+					calm = 0
+					if time.Now().After(deadline) {
+						r.Err = "the receive loop did not come to rest within 10s"
+						break
+					}
+					time.Sleep(50 * time.Microsecond)
+				}
+			}
+			w.send(r)
+		case 'I': // connection state: src ip(4) sport(2) dst ip(4) dport(2)
+			r := report{T: "conn", ID: id}
+			if len(payload) == 12 {
+				src := net.IPv4(payload[0], payload[1], payload[2], payload[3])
+				dst := net.IPv4(payload[6], payload[7], payload[8], payload[9])
+				sport := binary.BigEndian.Uint16(payload[4:6])
+				dport := binary.BigEndian.Uint16(payload[10:12])
+				r.ISS, r.State, r.OK = k.c.VerifConnState(src, sport, dst, dport)
+			}
+			w.send(r)
 		case 'S':
 			w.send(report{T: "states", ID: id, States: k.c.VerifStateCount()})
 		case 'K':
@@ -301,7 +359,21 @@ func childMain() int {
 // blocked (parked in a read, a select, a sleep) or gone: the port handlers have then
 // consumed what the last frame made available and emitted what they emit. This is the
 // harness's barrier against scheduling noise; it observes, it does not steer.
-func quiesce(timeout time.Duration) bool {
+// pending returns the number of bytes written to the peer sockets that the receive loop
+// has not taken yet.
+func pending(peers []int) int {
+	total := 0
+	for _, fd := range peers {
+		var v int32
+		if _, _, e := syscall.Syscall(syscall.SYS_IOCTL, uintptr(fd), uintptr(syscall.TIOCOUTQ), uintptr(unsafe.Pointer(&v))); e != 0 {
+			return 1 << 30
+		}
+		total += int(v)
+	}
+	return total
+}
+
+func quiesce(timeout time.Duration, loops bool) bool {
 	deadline := time.Now().Add(timeout)
 	buf := make([]byte, 1<<18)
 	for i := 0; ; i++ {
@@ -310,7 +382,7 @@ func quiesce(timeout time.Duration) bool {
 			buf = make([]byte, 2*len(buf))
 			continue
 		}
-		if quiet(buf[:n]) {
+		if quiet(buf[:n], loops) {
 			return true
 		}
 		if time.Now().After(deadline) {
@@ -324,7 +396,8 @@ func quiesce(timeout time.Duration) bool {
 	}
 }
 
-func quiet(dump []byte) bool {
+// quiet: loops tells whether a receive loop blocked in epoll_wait counts as parked.
+func quiet(dump []byte, loops bool) bool {
 	blocks := bytes.Split(dump, []byte("\n\n"))
 	for i, b := range blocks {
 		if i == 0 {
@@ -342,8 +415,15 @@ func quiet(dump []byte) bool {
 		if j := strings.IndexByte(state, ','); j >= 0 {
 			state = state[:j]
 		}
+		if strings.HasPrefix(state, "chan receive") || strings.HasPrefix(state, "select") {
+			continue // includes "chan receive (nil chan)": Start()'s wait on a context that is never cancelled
+		}
 		switch state {
-		case "select", "chan receive", "sleep", "IO wait":
+		case "sleep", "IO wait":
+		case "syscall":
+			if !loops || !bytes.Contains(b, []byte("syscall.EpollWait")) {
+				return false
+			}
 		default:
 			return false
 		}
@@ -498,7 +578,7 @@ type Child struct {
 }
 
 // StartChild re-executes the test binary as a canary host.
-func StartChild() (*Child, error) {
+func StartChild(extraEnv ...string) (*Child, error) {
 	exe, err := os.Executable()
 	if err != nil {
 		return nil, err
@@ -508,7 +588,7 @@ func StartChild() (*Child, error) {
 		return nil, err
 	}
 	cmd := exec.Command(exe)
-	cmd.Env = append(os.Environ(), childEnv+"=1")
+	cmd.Env = append(append(os.Environ(), childEnv+"=1"), extraEnv...)
 	cmd.ExtraFiles = []*os.File{pw}
 	c := &Child{cmd: cmd, rep: pr, stderr: &tail{}, canaries: map[uint32]*Canary{}, replies: make(chan report, 64), dead: make(chan struct{})}
 	cmd.Stderr = c.stderr
@@ -838,6 +918,57 @@ func (k *Canary) InjectBatch(frames [][]byte) ([]BatchPanic, error) {
 		frames = frames[n:]
 	}
 	return out, nil
+}
+
+// InjectBurst injects the frames back to back without draining in between (port
+// handlers run concurrently with the later frames), waits until every listener
+// goroutine rests and returns everything that was queued for transmit.
+func (k *Canary) InjectBurst(frames [][]byte) (tx [][]byte, panics []BatchPanic, err error) {
+	var buf []byte
+	for _, f := range frames {
+		buf = append(buf, byte(len(f)>>8), byte(len(f)))
+		buf = append(buf, f...)
+	}
+	r, err := k.ch.call('b', k.id, buf, "burst")
+	if err != nil {
+		return nil, nil, err
+	}
+	if r.Err != "" {
+		return nil, nil, fmt.Errorf("child: %s", r.Err)
+	}
+	for _, h := range r.Tx {
+		b, _ := hex.DecodeString(h)
+		tx = append(tx, b)
+	}
+	return tx, r.Panics, nil
+}
+
+// Rest is the barrier for a canary behind the real Start() loop: it returns when the
+// loop has taken every frame written so far and it and all handler goroutines are parked.
+func (k *Canary) Rest() error {
+	r, err := k.ch.call('q', k.id, nil, "rest")
+	if err != nil {
+		return err
+	}
+	if r.Err != "" {
+		return fmt.Errorf("child: %s", r.Err)
+	}
+	return nil
+}
+
+// ConnState returns the listener's initial send sequence number and state name for a
+// connection (ok=false: no such entry).
+func (k *Canary) ConnState(src IP4, sport uint16, dst IP4, dport uint16) (iss uint32, state string, ok bool, err error) {
+	p := make([]byte, 12)
+	copy(p[0:4], src[:])
+	binary.BigEndian.PutUint16(p[4:6], sport)
+	copy(p[6:10], dst[:])
+	binary.BigEndian.PutUint16(p[10:12], dport)
+	r, err := k.ch.call('I', k.id, p, "conn")
+	if err != nil {
+		return 0, "", false, err
+	}
+	return r.ISS, r.State, r.OK, nil
 }
 
 // States returns the number of occupied connection state slots.
